@@ -197,4 +197,81 @@ Proof.
   destruct (Rle_bool_spec (ball_sum (B2R x1) (B2R x2) (B2R x3)) 1) as [L|L]; [exact L|discriminate].
 Qed.
 
+
+(* ---- converse: no false rejection below a thin shell ---- *)
+Theorem disc_real_accept x1 x2 : x1 * x1 + x2 * x2 <= 1 - 4 * u -> disc_sum x1 x2 <= 1.
+Proof.
+  unfold disc_sum. intros H. pose proof u_small as [U0 U1]. pose proof eta_small as [E0 E1].
+  assert (0 <= x1 * x1) as S1 by nra. assert (0 <= x2 * x2) as S2 by nra.
+  pose proof (rnd_upper _ S1) as L1. pose proof (rnd_upper _ S2) as L2.
+  pose proof (rnd_nonneg _ S1) as N1. pose proof (rnd_nonneg _ S2) as N2.
+  pose proof (rnd_upper (rnd (x1 * x1) + rnd (x2 * x2)) ltac:(lra)) as L3.
+  set (p1 := rnd (x1 * x1)) in * . set (p2 := rnd (x2 * x2)) in * . set (q := x1 * x1 + x2 * x2) in * .
+  assert (p1 + p2 <= q * (1 + u) + 2 * eta) as B by (unfold q; lra).
+  assert ((p1 + p2) * (1 + u) <= (q * (1 + u) + 2 * eta) * (1 + u)) as C by (apply Rmult_le_compat_r; lra).
+  assert (q * ((1 + u) * (1 + u)) <= (1 - 4 * u) * ((1 + u) * (1 + u))) as D.
+  { apply Rmult_le_compat_r; [apply Rmult_le_pos; lra|exact H]. }
+  assert (eta * u <= u * u * u) as M1.
+  { pose proof (Rmult_le_compat_r u _ _ ltac:(lra) E1) as M. lra. }
+  assert (0 <= u * u) as M2 by (apply Rmult_le_pos; lra).
+  assert (0 <= u * u * u) as M3 by (apply Rmult_le_pos; lra).
+  assert (u * u * u <= u * u / 8) as M4.
+  { pose proof (Rmult_le_compat_l (u * u) u (1 / 8) M2 U1) as M. lra. }
+  lra.
+Qed.
+
+Theorem ball_real_accept x1 x2 x3 : x1 * x1 + x2 * x2 + x3 * x3 <= 1 - 6 * u -> ball_sum x1 x2 x3 <= 1.
+Proof.
+  unfold ball_sum, disc_sum. intros H. pose proof u_small as [U0 U1]. pose proof eta_small as [E0 E1].
+  assert (0 <= x1 * x1) as S1 by nra. assert (0 <= x2 * x2) as S2 by nra. assert (0 <= x3 * x3) as S3 by nra.
+  pose proof (rnd_upper _ S1) as L1. pose proof (rnd_upper _ S2) as L2. pose proof (rnd_upper _ S3) as L3.
+  pose proof (rnd_nonneg _ S1) as N1. pose proof (rnd_nonneg _ S2) as N2. pose proof (rnd_nonneg _ S3) as N3.
+  pose proof (rnd_upper (rnd (x1 * x1) + rnd (x2 * x2)) ltac:(lra)) as L4.
+  pose proof (rnd_nonneg (rnd (x1 * x1) + rnd (x2 * x2)) ltac:(lra)) as N4.
+  pose proof (rnd_upper (rnd (rnd (x1 * x1) + rnd (x2 * x2)) + rnd (x3 * x3)) ltac:(lra)) as L5.
+  set (p1 := rnd (x1 * x1)) in * . set (p2 := rnd (x2 * x2)) in * . set (p3 := rnd (x3 * x3)) in * .
+  set (s := rnd (p1 + p2)) in * . set (q := x1 * x1 + x2 * x2 + x3 * x3) in * .
+  set (a := x1 * x1 + x2 * x2) in * .
+  assert (p1 + p2 <= a * (1 + u) + 2 * eta) as B by (unfold a; lra).
+  assert ((p1 + p2) * (1 + u) <= (a * (1 + u) + 2 * eta) * (1 + u)) as C by (apply Rmult_le_compat_r; lra).
+  (* s + p3 <= a (1+u)^2 + 2 eta (1+u) + eta + c (1+u) + eta <= q (1+u)^2 + 2 eta (1+u) + 2 eta *)
+  assert (x3 * x3 * (1 + u) <= x3 * x3 * ((1 + u) * (1 + u))) as C3.
+  { apply Rmult_le_compat_l; [exact S3|]. pose proof (Rmult_le_compat_l (1 + u) 1 (1 + u) ltac:(lra) ltac:(lra)) as M. lra. }
+  assert (s + p3 <= q * ((1 + u) * (1 + u)) + 2 * eta * (1 + u) + 2 * eta) as D by (unfold q; fold a; lra).
+  assert ((s + p3) * (1 + u) <= (q * ((1 + u) * (1 + u)) + 2 * eta * (1 + u) + 2 * eta) * (1 + u)) as E
+    by (apply Rmult_le_compat_r; lra).
+  assert (q * ((1 + u) * (1 + u) * (1 + u)) <= (1 - 6 * u) * ((1 + u) * (1 + u) * (1 + u))) as F.
+  { apply Rmult_le_compat_r; [repeat apply Rmult_le_pos; lra|exact H]. }
+  assert (0 <= u * u) as M2 by (apply Rmult_le_pos; lra).
+  assert (0 <= u * u * u) as M3 by (apply Rmult_le_pos; lra).
+  assert (0 <= u * u * u * u) as M5 by (apply Rmult_le_pos; lra).
+  assert (u * u * u <= u * u / 8) as M4.
+  { pose proof (Rmult_le_compat_l (u * u) u (1 / 8) M2 U1) as M. lra. }
+  assert (u * u * u * u <= u * u / 64) as M6.
+  { pose proof (Rmult_le_compat_l (u * u * u) u (1 / 8) M3 U1) as M. lra. }
+  assert (eta * u <= u * u * u) as M1.
+  { pose proof (Rmult_le_compat_r u _ _ ltac:(lra) E1) as M. lra. }
+  assert (eta * u * u <= u * u * u * u) as M7.
+  { pose proof (Rmult_le_compat_r u _ _ ltac:(lra) M1) as M. lra. }
+  lra.
+Qed.
+
+Theorem disc_accept_fl_complete (x1 x2 : float) :
+  is_finite x1 = true -> is_finite x2 = true -> Rabs (B2R x1) <= 1 -> Rabs (B2R x2) <= 1 ->
+  B2R x1 * B2R x1 + B2R x2 * B2R x2 <= 1 - 4 * u -> disc_accept_fl x1 x2 = true.
+Proof.
+  intros F1 F2 H1 H2 A. destruct (disc_sum_fl_value x1 x2 F1 F2 H1 H2) as (V & G & _).
+  unfold disc_accept_fl. rewrite (Bleb_correct prec emax _ _ G (is_finite_Bone prec emax Hp Hpe)).
+  rewrite V, (Bone_correct prec emax Hp Hpe). apply Rle_bool_true. apply disc_real_accept. exact A.
+Qed.
+
+Theorem ball_accept_fl_complete (x1 x2 x3 : float) :
+  is_finite x1 = true -> is_finite x2 = true -> is_finite x3 = true ->
+  Rabs (B2R x1) <= 1 -> Rabs (B2R x2) <= 1 -> Rabs (B2R x3) <= 1 ->
+  B2R x1 * B2R x1 + B2R x2 * B2R x2 + B2R x3 * B2R x3 <= 1 - 6 * u -> ball_accept_fl x1 x2 x3 = true.
+Proof.
+  intros F1 F2 F3 H1 H2 H3 A. destruct (ball_sum_fl_value x1 x2 x3 F1 F2 F3 H1 H2 H3) as (V & G).
+  unfold ball_accept_fl. rewrite (Bleb_correct prec emax _ _ G (is_finite_Bone prec emax Hp Hpe)).
+  rewrite V, (Bone_correct prec emax Hp Hpe). apply Rle_bool_true. apply ball_real_accept. exact A.
+Qed.
 End Fmt.
